@@ -386,9 +386,9 @@ let split_arrow (i : string) : (string * string) option =
   | Some k -> Some (String.sub i 0 k, String.sub i (k + n) (h - k - n))
   | None -> None
 
-(* the optional "cl:..." token (the command line actually passed) is for the harness only *)
+(* the optional "cl:..." / "ev:..." token (command line / environment actually used) is for the harness only *)
 let drop_cl line =
-  String.concat " " (List.filter (fun t -> not (String.length t >= 3 && String.sub t 0 3 = "cl:")) (toks line))
+  String.concat " " (List.filter (fun t -> not (String.length t >= 3 && (String.sub t 0 3 = "cl:" || String.sub t 0 3 = "ev:"))) (toks line))
 
 let e2e line =
   let (attr, rev, drop, items) = tree_case (drop_cl line) in
